@@ -497,6 +497,17 @@ static void jobCli(const vutil::Job& j) {
     std::string rec = "{\"status\":\"cli\",\"rc\":" + std::to_string(rc) + ",\"stdout\":" + jstr(so) + ",\"stderr\":" + jstr(stripAnsi(se)) + extra;
     rec += ",\"draws_used\":" + std::to_string(g_drawIdx);
     rec += ",\"nops\":" + std::to_string(g_ops.size());
+    {
+        std::map<std::string, int> cnt;
+        for (auto& o : g_ops) cnt[o.name]++;
+        rec += ",\"opcounts\":{";
+        bool f = true;
+        for (auto& kv : cnt) {
+            rec += std::string(f ? "" : ",") + jstr(kv.first) + ":" + std::to_string(kv.second);
+            f = false;
+        }
+        rec += "}";
+    }
     rec += ",\"files\":{";
     bool first = true;
     std::vector<fs::path> found;
